@@ -282,6 +282,26 @@ Proof.
   - intros u Hu. pose proof (SInv_meta_lt s u HS Hu). cbn [vmeta]. lia.
 Qed.
 
+(* nothing done in place through the reloaded vector changes an array of a vector that existed before *)
+Theorem reload_independent s vi s' :
+  SInv s -> step s (OReload vi) = (s', RNew) ->
+  forall u id, In u (vecs s) -> In id (reach u) ->
+    (forall name a, nth_error (heap (fst (step s' (OFieldOp (length (vecs s)) name a)))) id = nth_error (heap s) id) /\
+    (forall name vals,
+        nth_error (heap (fst (step s' (OSetFlattened (length (vecs s)) name vals)))) id = nth_error (heap s) id).
+Proof.
+  intros HS Hc u id Hu Hid.
+  destruct (reload_disjoint s vi s' HS Hc) as (v & w & l & Hv & Hvs & Hh & _ & _ & _ & _ & Hdis & _).
+  assert (Hw : nth_error (vecs s') (length (vecs s)) = Some w).
+  { rewrite Hvs. apply nth_error_alloc_new. }
+  assert (Hn : ~ In (Some id) (leaves (vdata w))).
+  { intros Hin. apply (Hdis u id Hu Hid). apply reach_In. exact Hin. }
+  assert (Hold : nth_error (heap s') id = nth_error (heap s) id).
+  { rewrite Hh. apply nth_error_app1. eapply reach_lt; eauto. }
+  destruct (inplace_frame s' (length (vecs s)) w id Hw Hn) as [F1 F2].
+  split; intros; [rewrite (proj1 (F1 _ _))|rewrite (proj1 (F2 _ _))]; exact Hold.
+Qed.
+
 (* ================================================================ over all histories *)
 Theorem field_get_slice_hist ops vi v name k idx s' :
   let s := run ops init in
@@ -306,3 +326,12 @@ Theorem reload_disjoint_hist ops vi s' :
     (forall u id, In u (vecs s) -> In id (reach u) -> ~ In id (reach w)) /\
     (forall u, In u (vecs s) -> vmeta w <> vmeta u).
 Proof. intros s. apply reload_disjoint. apply vec_inv_reachable. Qed.
+
+Theorem reload_independent_hist ops vi s' :
+  let s := run ops init in
+  step s (OReload vi) = (s', RNew) ->
+  forall u id, In u (vecs s) -> In id (reach u) ->
+    (forall name a, nth_error (heap (fst (step s' (OFieldOp (length (vecs s)) name a)))) id = nth_error (heap s) id) /\
+    (forall name vals,
+        nth_error (heap (fst (step s' (OSetFlattened (length (vecs s)) name vals)))) id = nth_error (heap s) id).
+Proof. intros s. apply reload_independent. apply vec_inv_reachable. Qed.
